@@ -133,15 +133,19 @@ CLAIMS = {
          "findings, negations proved): same-scale units hash by symbol (D13u); converter-based equality of reference-less types cannot be "
          "hash-consistent (D13c). Python's hash of equal numbers/tuples is trusted.",
          "6 C19", NOTE),
- "C15": ("Lean 4 proof (registry model: effect of unit creation, symbol uniqueness invariant, rejection table) + differential correspondence on declaration histories",
+ "C15": ("Lean 4 proof (registry model: effect of unit creation; reachable-state invariants for every declaration history: directory coherence and stored scale = value of the definition; rejection table) + differential correspondence on declaration histories",
          "Theorems (Props/C15.lean) over the registry model: what a successful unit creation does to each directory (next id, found under its "
          "symbol, appended to its own class's list and no other, scale = numeric part of the normalised definition), symbols stay unique and point "
          "back to their unit (invariant preserved by every creation), factory dispatch to the unit's class, and the rejection table "
          "(duplicate/empty/non-string symbol, foreign quantity, term not resolving to the own class, duplicate dimension). The model is tied to the "
          "code by random declaration histories (40 quick / 400 thorough, 15 kinds of invalid steps) compared after EVERY step through a full "
          "directory dump, plus an independent oracle that tracks class, dimension and scale (product of the factors along the chain) with Fractions "
-         "only. Partial: that the stored scale equals the product of factors is established by the oracle on every history and by C07's denotation "
-         "theorems for the normalisation step, not yet as one closed theorem over histories.",
+         "only. CLOSED over histories (Proofs/Invariants.lean, Proofs/Scale.lean): for every state reachable from import by ANY sequence of "
+         "declarations (accepted or rejected) the directories are coherent (symbols unique, every unit found under its symbol, listed by its own "
+         "type only, term directory keyed by normalised definitions), and — when definitions mention existing units and do not denote zero — "
+         "the scale stored for a new unit is EXACTLY a*scale(u) / the value of the defining term / the product of scale(u_i)^e_i for derived units, "
+         "reference units have scale 1, and the valuation 'unit -> stored scale' is admissible (so the hypotheses of the C01/C02/C10/C17 theorems "
+         "are satisfiable in every such state). Excluded by hypothesis: definitions denoting zero (the code stores scale 1 for them: D10 in DESIGN section 7).",
          "6 C15", NOTE),
  "C16": ("Lean 4 proof (every failing path of the declaration model returns the unchanged state) + differential correspondence with directory dumps before/after every rejected step",
          "Theorems (Props/C16.lean, C08, C11): for new_unit, derive_unit_from, class statements, currency declarations, money-converter updates "
